@@ -77,8 +77,10 @@ TD15_QUICK = [('tdigest.rs', 'c15_td_endpoints_1', 'bounded(1 centroid; weights 
               ('tdigest.rs', 'c15_td_consistent_1', 'bounded(1 centroid, strict knots)'),
               ('tdigest.rs', 'c15_td_concrete_weighted_grid_q', 'bounded(ONE concrete 3-centroid digest with unequal outer weights; q on j/104): range, monotonicity, cdf(quantile(q)) = q in both tails'),
               ('tdigest.rs', 'c15_td_merge_three_concrete_sorted', 'bounded(ONE concrete merge: centroid 5, backlog 6, 1; non-fusing scale function): three entries come out sorted'),
+              ('tdigest.rs', 'c15_td_merge_three_grid_sorted', 'bounded(1 centroid + 2 backlog values on an integer grid; non-fusing scale function): sorted, sum kept'),
               ('tdigest.rs', 'c15_td_first_read_tails', 'bounded(one concrete insert still in the backlog): cdf tails / quantile end points / repeated reads as FIRST read through the public wrapper')]
 TD15_THOROUGH = [('tdigest.rs', 'c15_td_endpoints_3', 'bounded(3 centroids)'),
+                 ('tdigest.rs', 'c16_td_merge_three_any_schedule', 'bounded(three entries, every fuse schedule): merge leaves means sorted'),
                  ('tdigest.rs', 'c15_td_quantile_shape_1', 'bounded(1 centroid; q on j/32)'),
                  ('tdigest.rs', 'c15_td_quantile_shape_2', 'bounded(2 centroids; q on j/32)'),
                  ('tdigest.rs', 'c15_td_cdf_shape_2', 'bounded(2 centroids; x on j/8)'),
@@ -95,8 +97,9 @@ TD16_QUICK = [('tdigest.rs', 'c16_td_insert_weighted_inner', 'complete: all fini
               ('tdigest.rs', 'c19_td_clear_is_fresh', 'bounded(2 centroids + 1 backlog entry): clear() empties the digest'),
               ('tdigest.rs', 'c15_td_empty', 'complete: empty digest')]
 TD16_MERGE = [('tdigest.rs', 'c16_td_merge_1_1', 'bounded(1 centroid + 1 backlog entry; adversarial scale function)'),
+              ('tdigest.rs', 'c15_td_merge_three_grid_sorted', 'bounded(1 centroid + 2 backlog values on an integer grid; non-fusing scale function): sorted, sum kept'),
               ('tdigest.rs', 'c15_td_merge_three_concrete_sorted', 'bounded(ONE concrete merge of three entries; non-fusing scale function)')]
-TD16_THOROUGH = []
+TD16_THOROUGH = [('tdigest.rs', 'c16_td_merge_three_any_schedule', 'bounded(1 centroid + 2 unsorted backlog entries on an integer grid, weights 1..4; EVERY fuse schedule): conservation, sortedness, no new centroids, ranks in [0,1]')]
 TD19 = [('tdigest.rs', 'c19_td_clear_is_fresh', 'bounded(2 centroids + 1 backlog entry)')]
 
 PROPS = {}
@@ -229,8 +232,8 @@ PROPS['C16'] = {
     'kani': {'quick': TD16_QUICK + TD16_MERGE, 'thorough': TD16_THOROUGH},
     'explanation': 'insert_weighted: complete Kani harness over the full f64 domain (min/max exact, backlog entry exact, zero weight is a no-op); merge(): bounded harness with an ADVERSARIAL scale function (f/f_inv return arbitrary values on every call) showing count()/sum() conserved, means sorted, min/max untouched for every merge schedule.',
     'trusted_base': COMMON_TRUST,
-    'assumptions': ['merge harness: small integer weights/sums so f64 addition is exact; <= 1 centroid + 1 backlog entry', '"to floating-point accumulation accuracy" for non-integer weights is assumed'],
-    'not_decided': ['merge with more centroids'],
+    'assumptions': ['merge harnesses: small integer weights/sums so f64 addition is exact; 1 centroid + 1 backlog entry with an adversarial scale function (quick), 1 centroid + 2 backlog entries with every fuse schedule (thorough)', '"to floating-point accumulation accuracy" for non-integer weights is assumed'],
+    'not_decided': ['merge of more than three entries'],
 }
 
 PROPS['C17'] = {
